@@ -32,6 +32,8 @@ def main(argv=None) -> int:
             return m.replay(a.prop, a.replay)
         if a.selftest:
             return m.selftest(a.prop, seed)
+        from . import core_check
+        core_check.set_budget(a.tier)
         return m.run(a.prop, a.tier, seed)
     except Exception:
         import traceback
